@@ -4,3 +4,26 @@
 -/
 import D42.Props.C12Idem
 import D42.Props.SubstProg
+
+namespace D42
+open SP
+
+/-- a scalar substitution AS EXTRACTED FROM THE SOURCE fails with SubstitutionError only, and when it succeeds the value it
+    was given passes the scalar checks of the original schema -/
+theorem extracted_scalar_subst_spec (env : Env) (k : ScalarS) (v : PyVal) :
+    (∀ e, runScalarSubst env (substFormOf k) k v = .error e → e = .substitutionError) ∧
+    (∀ s, runScalarSubst env (substFormOf k) k v = .ok s → validateScalar env k v [] = []) := by
+  constructor
+  · intro e h
+    unfold runScalarSubst at h
+    split at h <;> simp_all
+  · intro s h
+    unfold runScalarSubst at h
+    split at h
+    · simp at h
+    · rename_i hc
+      cases k <;> simp_all [substFormOf, Gen.SubstProg.noneSubst, Gen.SubstProg.boolSubst, Gen.SubstProg.intSubst,
+        Gen.SubstProg.floatSubst, Gen.SubstProg.strSubst, Gen.SubstProg.bytesSubst, Gen.SubstProg.uuid4Subst,
+        Gen.SubstProg.datetimeSubst, Gen.SubstProg.dateSubst]
+
+end D42
